@@ -6,7 +6,7 @@ import hashlib
 import time
 
 VERIF = os.path.dirname(os.path.dirname(os.path.abspath(__file__)))
-EVID = os.path.join(VERIF, "evidence")
+EVID = os.environ.get("NIXSA_EVIDENCE_DIR") or os.path.join(VERIF, "evidence")
 KNOWN = os.path.join(VERIF, "known_findings.json")
 
 
@@ -118,6 +118,7 @@ class Reporter:
                           for rid, r in sorted(self.rules.items())},
                 "known_findings_reported": nknown,
                 "analysed": self.stats,
+                "self_validation": getattr(self, "self_validation", None),
                 "exhaustive": True,
             },
             "assumptions": self.assumptions,
